@@ -66,10 +66,6 @@ def ev_lib(be, node):
         return _leaf_lib(be, node)
     if t in ('add', 'sub', 'matmul'):
         a, b = ev_lib(be, node['a']), ev_lib(be, node['b'])
-        if be == 'torch' and t in ('add', 'sub'):
-            b = b.as_polynomial() if t == 'add' else b      # torch Pauli.__add__ casts both; polynomial + Pauli needs a polynomial
-            if type(a).__name__ == 'PauliPolynomial' and type(b).__name__ == 'Pauli':
-                b = b.as_polynomial()
         return a + b if t == 'add' else (a - b if t == 'sub' else a @ b)
     if t == 'mul':
         return gen.cplx(node['c']) * ev_lib(be, node['a'])
@@ -188,8 +184,7 @@ def st_tree(be, N, depth):
                st.fixed_dictionaries({'t': st.just('mul'), 'c': st.one_of(gen.st_coef(), st.sampled_from([[1.0, 0.0], [-1.0, 0.0], [0.0, 1.0], [0.0, -1.0]])), 'a': ch}),
                st.fixed_dictionaries({'t': st.just('div'), 'a': ch, 'c': gen.st_coef(nonzero=True)}),
                st.fixed_dictionaries({'t': st.sampled_from(['neg', 'reduce']), 'a': ch})]
-        if be == 'np':
-            ops.append(st.fixed_dictionaries({'t': st.sampled_from(['addnum', 'raddnum', 'subnum']), 'a': ch, 'c': gen.st_coef()}))
+        ops.append(st.fixed_dictionaries({'t': st.sampled_from(['addnum', 'raddnum', 'subnum']), 'a': ch, 'c': gen.st_coef()}))
         return st.one_of(*ops)
     return st.recursive(leaf, ext, max_leaves=6)
 
